@@ -14,3 +14,27 @@ Fixpoint nodup_n (l : list N) : bool := match l with [] => true | x :: r => negb
 Theorem C02i_schema_ids_unique : nodup_n (map c_id api) = true /\ nodup_n (map c_id mt) = true.
 Proof. vm_compute. split; reflexivity. Qed.
 Print Assumptions C02i_schema_ids_unique.
+
+From MTV Require Import Base.Outcome TL.RoundTrip TL.MatchProofs TL.SpecProofs.
+
+Definition schema := (api ++ mt)%list.
+Definition tbl := kind_table shipped api.
+
+Fixpoint indexed {A} (i : N) (l : list A) : list (N * A) :=
+  match l with [] => [] | x :: r => (i, x) :: indexed (i + 1) r end.
+
+(* every struct type whose constructor id is defined by the API schema matches its schema line
+   (so C02_encode_is_spec applies to every value built from these types) *)
+Definition api_ids := map c_id api.
+Theorem C02i_api_structs_in_schema :
+  forallb (fun p => match s_crc (snd p) with
+                    | Some k => if mem k api_ids then struct_in_schema shipped api tbl (fst p) else true
+                    | None => true end) (indexed 0 shipped_structs) = true.
+Proof. vm_compute. reflexivity. Qed.
+Print Assumptions C02i_api_structs_in_schema.
+
+(* instance: for today's types and today's schema text *)
+Theorem C02i_encode_is_spec_shipped : forall v bs,
+  all_in_schema shipped api tbl v = true -> enc shipped v = Ok bs -> spec api (abs shipped v) = Some bs.
+Proof. exact (encode_is_spec shipped api tbl). Qed.
+Print Assumptions C02i_encode_is_spec_shipped.
